@@ -7,6 +7,25 @@ NOTE_COMMON = ('Trusted base: rustc nightly front end and MIR construction; the 
                'engine; std and third-party crates. Static only: nothing of vibesql is executed. ')
 
 CHECKS = {
+    'C11': dict(
+        technique='MIR path analysis: no-error-exit-after-mutation (T4) over all DML executor functions, reviewed inventory keyed by (function, mutating call, failing origin)',
+        text='Decides for every call to a row-mutating function in code reachable from the INSERT/UPDATE/DELETE entry points that no '
+             'error return is reachable after it succeeded unless the compensating undo is passed first; same-iteration and '
+             'later-iteration failures are separated. Covers every row position at which a multi-row statement can fail. Each '
+             'triple on today\'s tree is a demonstrated known finding or a reasoned exception; a new triple alarms.',
+        note='Over-approximates feasibility (a fallible call may be unable to fail at that point): hence the reviewed inventory. '
+             'Not decided: that a compensation restores the exact prior state; failures inside storage after partial work. '
+             'Nested statements of trigger bodies count as separate statements.',
+        design='§4 C11'),
+    'C13': dict(
+        technique='state-coverage analysis (T11): Database fields written by statement execution vs fields captured by BEGIN and restored by ROLLBACK, from MIR field borrows over the call graph',
+        text='Decides snapshot completeness for all histories: the set of Database fields that any function reachable from the '
+             'statement executors writes or mutably borrows must be contained in the fields BEGIN clones and ROLLBACK assigns; '
+             'rollback must assign *catalog and *tables from original_* clones; COMMIT must not restore; the transaction '
+             'executors must reach the storage calls. Field privacy makes the writer set closed-world.',
+        note='Not decided: that derived Clone is deep; session state (role, security flag, session variables, sql_mode) is '
+             'declared non-transactional with reasons.',
+        design='§4 C13'),
     'C14': dict(
         technique='MIR path analysis: must-follow (record_change after every DML row mutation) with inter-procedural summaries; match-arm table of undo_change',
         text='Decides, for all histories at once, the structural necessary conditions of savepoint rollback: every row mutation '
